@@ -11,6 +11,16 @@ NOTE = ("Trusted base: Coq 8.16.1 kernel; hand-written Gallina model tied to /re
 
 CHECKS = {
     # pid: (technique, level text, level note, design ref)
+    "C11": ("Coq proof that the CanonicalFormatter state machine (driven by serde_json's event sequence) computes the "
+            "recursive OLPC specification; order-independence and sortedness theorems; differential correspondence "
+            "and independent Python specification oracle",
+            "Theorems for all JSON values (any depth, any strings) about the Gallina model of the formatter; model "
+            "tied to the code by running both on exhaustive key sets over the property's 8-character alphabet and "
+            "random values (control characters, combining characters, integer extremes, floats); an independent "
+            "Python implementation of OLPC canonical JSON is the oracle that turns a correspondence break into a "
+            "failing input. Partial: the injectivity clause is searched for collisions, not yet proved.",
+            NOTE + " Modelled not verified: serde_json's Serializer event order and string splitting, Unicode NFC "
+            "(parameter with hypotheses nfc_ok, tested against unicodedata).", "5/C11"),
     "C16": ("Coq proof of injectivity/plain-entry of the file-name function + exhaustive/random differential "
             "correspondence with DelegatedTargets::filename",
             "Theorems (all role names, all versions, both consistent-snapshot settings) on the Gallina model of "
